@@ -199,10 +199,24 @@ pub open spec fn named_atom_name(t: Term) -> Option<String> {
         _ => None,
     }
 }
+/// A2: the decimal text std prints for an unsigned integer (`usize::to_string`), left unspecified
+/// but for the one fact C01 needs: std's `str::parse::<usize>` reads it back (axiom_usize_text_parses)
+pub uninterp spec fn usize_text(i: usize) -> Seq<char>;
+#[verifier::external_body]
+pub broadcast proof fn axiom_usize_to_string(t: &usize, s: String)
+    requires #[trigger] vstd::string::to_string_from_display_ensures::<usize>(t, s)
+    ensures s@ == usize_text(*t)
+{}
+/// A2 (std): `usize::from_str` accepts the text `usize::to_string` prints, with the same value
+#[verifier::external_body]
+pub proof fn axiom_usize_text_parses(i: usize)
+    ensures parse_spec::<usize>(usize_text(i)) == Some(i)
+{}
 /// the name part of an atom as text: the stored name; nothing for the placeholder; an
-/// interval's number in decimal (std's `usize::to_string`, left unspecified)
+/// interval's number in decimal (std's `usize::to_string`)
 pub open spec fn atom_name_rel(t: Term, n: Seq<char>) -> bool {
     (named_atom_name(t) matches Some(x) ==> n == x@) && (t is Placeholder ==> n.len() == 0)
+        && (t matches Term::Interval(i) ==> n == usize_text(i))
 }
 /// same constructor among the atoms
 pub open spec fn atom_kind_same(a: Term, b: Term) -> bool {
